@@ -119,6 +119,8 @@ def execute(pid, unit_cases, run_cases, pairs=None):
                                 sig=h(ca["src"] + json.dumps(ca.get("opts"), sort_keys=True) + json.dumps(cb.get("opts"), sort_keys=True)),
                                 nontrivial="_create" in (ra.get("raw_printed") or ""), detail=d,
                                 impl={"printed_a": ra.get("printed"), "printed_b": rb.get("printed")}))
+        if "extra" in P:
+            P["extra"](run_cases, recs, records)
         # ---- follow-up cases derived from the first phase (e.g. every output fed back as input)
         if "followup" in P:
             fcases = P["followup"](run_cases, recs)
@@ -394,7 +396,7 @@ def c01_cases(tier, seed):
 
 
 PROPS["C01"] = {
-    "theorems": ["C01_tag_known", "C01_tag_fragment", "C01_tag_pattern", "C01_tag_unresolved", "C01_tag_bound", "C01_tag_member",
+    "theorems": ["C01_tag_known", "C01_tag_fragment", "C01_tag_pattern", "C01_tag_unresolved", "C01_tag_bound", "C01_tag_member", "C01_tag_member_shape",
                  "C01_valueless_true", "C01_string_value_cleaned", "C01_expr_value", "C01_spread_plain", "C01_spread_merge",
                  "C01_no_attrs", "C01_assemble_merge"],
     "cases": c01_cases,
@@ -562,7 +564,7 @@ PROPS_PROFILES = {
 }
 
 PROPS["C12"] = {
-    "theorems": ["C12_attrs_blind", "C12_wrap_adds_only_hint", "C12_hint_entry", "C12_erase_wrap", "C12_stack_untouched_when_off", "C12_push_pop_balanced"],
+    "theorems": ["C12_attrs_blind", "C12_assemble_blind", "C12_wrap_adds_only_hint", "C12_hint_entry", "C12_erase_wrap", "C12_stack_untouched_when_off", "C12_push_pop_balanced"],
     "cases": c12_cases,
     "explanation": "pair oracle on the implementation: eraseHints(output under optimize=true) = output under optimize=false, syntactically, hence under every semantics",
 }
@@ -863,4 +865,129 @@ PROPS["C09"] = {
     "followup_clause": "not-idempotent",
     "nontrivial": lambda c, r: True,
     "explanation": "oracle: a module without JSX (and without defineComponent calls under resolveType) must come back identical; otherwise denote(input) and evalOut(real output) must agree everywhere outside the lowered JSX expressions once the inserted imports/helper/temporaries are stripped (skeleton); every printed output is fed back and must come back unchanged",
+}
+
+
+# ---- C07 / C08: the malformed-usage stream --------------------------------------------------------------------
+ODD_ATTRS = ["a=<b/>", "a=<></>", "a=<b c={<d/>}>t</b>", "class=<i/>", "v-foo", "v-show", "v-html", "v-text", "v-model", "v-models", "v-slots", "vFoo",
+             "v-foo={[]}", "v-foo={[,]}", "v-foo={[...xs]}", "v-foo={[x, ...ys]}", "v-foo={[x, , ['m']]}", "v-model={[]}", "v-model={[, 'a']}", "v-model={[...xs]}",
+             "v-models={[]}", "v-models={x}", "v-models={[[x], y, ...zs, [,]]}", "v-models", 'v-models="s"', "v-foo={[x, ['a-b', '1x', 'ok']]}", "v-foo_a-b={x}", "v-foo_1x_ok={x}",
+             "v-model={[x, ['a b', 'c.d']]}", "v-model_a-b={x}", 'v-html="s"', "v-html=<b/>", "v-text=<></>", "v-html={[]}", "v-text={[...xs]}", 'v-model="s"',
+             "v-model=<b/>", "v-slots=<b/>", 'v-slots="s"', "v-slots={f()}", "v-show=<b/>", "v-foo=<b/>", 'v-show="s"', "v-foo:arg", "v-foo:arg_m", "v-:x={y}", "v-={y}", "v={y}",
+             "v-model:a-b={x}", "v-model={[x, 'a-b']}", "v-model={[x, `t`]}", "v-model={[x, 1]}", "{...<b/>}", "key=<b/>", "ref=<></>", "on=<b/>"]
+ODD_TAGS = ["a:b", "svg:rect", "this.Comp", "this.a.B", "a.b.c.D", "Foo.bar", "x-y", "div", "Comp", "Fragment", "KeepAlive", "_", "$x", "A1"]
+ODD_CHILDREN = ["", "{}", "{/* c */}", "{...xs}", "{<b/>}", "<></>", "{...<b/>}", "{function(){}}", "{{}}", "{[]}", "{[,]}", "&amp;&#x41;", "{' '}", "{`t`}", "{a}{}{b}"]
+ODD_COMMENTS = ["", "/* @jsx h */", "/* @jsx h extra */", "/** @jsxImportSource vue */", "/* @jsx */", "// @jsx a.b", "/* @jsx $h */", "/* @jsxFrag F */", "/* @jsx h */ /* @jsx k */"]
+CYCLIC = ["type T = T;", "type A = B; type B = A;", "interface I extends I { a: 1 }", "interface P extends Q {} interface Q extends P {}",
+          "type T = { a: T }['a'];", "type T = T | string;", "type T = Partial<T>;", "type T = (T);", "type K = K; type T = Pick<{a: 1}, K>;", "type T = T['x'];",
+          "type T = { a: string } & T;", "type T = Array<T>[number];", "interface I { a: I['a'] }"]
+
+
+def malformed_stream(tier, r):
+    out = []
+    for ci, com in enumerate(ODD_COMMENTS):
+        for ai, attr in enumerate(ODD_ATTRS):
+            if tier == "quick" and ci and (ai + ci) % 5:
+                continue
+            tag = ODD_TAGS[(ai + ci) % len(ODD_TAGS)]
+            ch = ODD_CHILDREN[(ai * 3 + ci) % len(ODD_CHILDREN)]
+            src = "%s\n%sconst v = <%s %s>%s</%s>;\n" % (com, gen.PRELUDE, tag, attr, ch, tag)
+            out.append({"src": src, "tsx": False})
+    for tag, ch in itertools.product(ODD_TAGS, ODD_CHILDREN):
+        out.append({"src": gen.PRELUDE + "const v = <%s>%s</%s>;\nexport default <%s v-show={y}>%s<%s/></%s>;\n" % (tag, ch, tag, tag, ch, tag, tag), "tsx": False})
+    for a1, a2 in itertools.product(ODD_ATTRS, repeat=2):
+        if r.below(100) < (3 if tier == "quick" else 25):
+            out.append({"src": gen.PRELUDE + "const v = <div %s %s/>;\nconst w = <Comp %s %s>{x}</Comp>;\n" % (a1, a2, a2, a1), "tsx": False})
+    for depth in [5, 50, 200]:
+        out.append({"src": gen.PRELUDE + "const v = " + "<div>" * depth + "{x}" + "</div>" * depth + ";\n", "tsx": False})
+        out.append({"src": gen.PRELUDE + "const v = " + "<Comp a={" * depth + "1" + "}/>" * depth + ";\n", "tsx": False})
+    for cyc in CYCLIC:
+        for use in ["(props: T) => {}", "(props: A) => {}", "(props: I) => {}", "(props: P) => {}", "(props: { x: T }) => {}", "(_, ctx: SetupContext<T>) => {}", "(props: K) => {}"]:
+            src = "import { defineComponent } from 'vue';\nimport type { SetupContext } from 'vue';\n%s\ndefineComponent(%s);\n" % (cyc, use)
+            out.append({"src": src, "tsx": True, "opts": {"resolveType": True}})
+    return out
+
+
+def c07_cases(tier, seed):
+    r = gen.Rng(seed)
+    run = corpus_cases("C07") + fixture_cases()
+    for i, c in enumerate(malformed_stream(tier, r)):
+        o = c.get("opts") or {k: r.chance(0.5) for k in ("transformOn", "optimize", "mergeProps", "enableObjectSlots")}
+        if "resolveType" not in o and r.chance(0.1):
+            o["pragma"] = "h"
+        run.append({"id": "x%d" % i, "src": c["src"], "tsx": c["tsx"], "opts": o})
+    prof = dict(GENERAL_PROFILE)
+    prof["tags"] = dict(ALL_TAGS, ns=1, this=2)
+    prof["attr_values"] = {"string": 4, "none": 3, "expr": 6, "const": 2, "string-ws": 1, "jsx": 2, "empty": 0}
+    mods, hist = gen_modules(r, budget(tier, 1500, 40000), prof, std_opts)
+    run += mods
+    return [], run, {"rule": "fixtures + the malformed-usage stream (56 unusual attribute forms: element/fragment as attribute value, valueless directives, array-form directives with holes/spreads/empty arrays, non-identifier modifiers and arguments, directive values of every attribute-value kind; x 14 tag forms incl. namespaced and this-member tags x 15 child forms x 9 pragma comments, attribute pairs sampled, nesting depth up to 200, 13 cyclic type declarations x 7 uses) + %d generated modules with JSX attribute values and namespaced/this tags, under random option sets" % len(mods),
+                     "histogram": dict(hist.most_common(30))}
+
+
+def c07_post(rec, c, r, d):
+    # supporting execution (printer and parser are not modelled): the printed output must re-parse as a non-JSX module
+    if rec["oracle"] == "ok" and not r.get("diags") and r.get("panic") is None and r.get("reparse_ok") is False:
+        rec["oracle"] = "FAIL:printed-output-does-not-reparse:" + (r.get("printed") or r.get("print_panic") or "")[:200].replace("\n", " ")
+
+
+PROPS["C07"] = {
+    "theorems": ["C07_expression_replaced", "C07_fragment_is_call", "C07_element_is_call", "importFromVue_is_ident", "importFromVue_keeps",
+                 "C07_ident_tag_not_jsx", "C07_member_and_namespaced_tags", "C07_member_tag_no_jsx", "C07_modifier_keys_printable",
+                 "C07_pragma_callee_one_word"],
+    "cases": c07_cases,
+    "post": c07_post,
+    "nontrivial": lambda c, r: True,
+    "explanation": "oracle: unless a diagnostic was reported, the real output contains no JSX node of any kind, no empty identifier, no unquoted non-identifier object key and no multi-word callee; supporting execution: SWC prints it (after hygiene+fixer) and re-parses it with JSX disabled",
+}
+
+
+
+# ---- C08 ---------------------------------------------------------------------------------------------------
+def c08_cases(tier, seed):
+    r = gen.Rng(seed)
+    run = corpus_cases("C08") + fixture_cases()
+    for i, c in enumerate(malformed_stream(tier, r)):
+        o = c.get("opts") or {k: r.chance(0.5) for k in ("transformOn", "optimize", "mergeProps", "enableObjectSlots")}
+        run.append({"id": "x%d" % i, "src": c["src"], "tsx": c["tsx"], "opts": o, "twice": True})
+    mods, hist = gen_modules(r, budget(tier, 1200, 30000), GENERAL_PROFILE, std_opts)
+    for m in mods:
+        m["twice"] = True
+    run += mods
+    for c in run:
+        c["twice"] = True
+    return [], run, {"rule": "fixtures + the malformed-usage stream (directive values of every attribute-value kind, holes/spreads/empty arrays, 13 self- or mutually-referential alias/interface declarations x 7 uses, nesting depth up to 200, ...) + %d generated modules; every case is run TWICE in one process (fresh SWC globals) and once more in a fresh process with the cases in reverse order; outputs, diagnostics and outcomes must be byte-identical; a panic or a process abort (stack overflow) is a violation" % len(mods),
+                     "histogram": dict(hist.most_common(30))}
+
+
+def c08_post(rec, c, r, d):
+    if r.get("panic") is not None:
+        rec["oracle"] = "FAIL:panic:" + str(r.get("panic"))[:120]
+    elif r.get("same_twice") is False:
+        rec["oracle"] = "FAIL:nondeterministic-in-process:two runs of the same case differ"
+    elif r.get("print_panic"):
+        rec["oracle"] = "FAIL:printer-panic:" + str(r.get("print_panic"))[:120]
+
+
+def c08_extra(run_cases, recs, records):
+    """fresh processes, reverse order: byte-identical results"""
+    rev = list(reversed(run_cases))
+    recs2 = list(reversed(runlib.run_harness(rev, mode="run", nproc=max(2, runlib.NPROC // 2))))
+    byid = {r["id"]: r for r in records}
+    for c, a, b in zip(run_cases, recs, recs2):
+        keys = ("raw_printed", "printed", "diags", "panic", "abort", "parse_error")
+        if any(a.get(k) != b.get(k) for k in keys):
+            rec = byid.get(c["id"])
+            if rec is not None and not rec["oracle"].startswith("FAIL"):
+                rec["oracle"] = "FAIL:nondeterministic-across-processes:" + ",".join(k for k in keys if a.get(k) != b.get(k))
+
+
+PROPS["C08"] = {
+    "theorems": ["C08_vhtml_vtext_no_panic", "C08_vhtml_bad_value_reported", "C08_vmodel_no_panic", "C08_parseDirective_no_panic",
+                 "C08_depth_bound_is_diagnostic"],
+    "cases": c08_cases,
+    "post": c08_post,
+    "extra": c08_extra,
+    "nontrivial": lambda c, r: True,
+    "explanation": "the model's totality is Lean's; the real code is executed on the adversarial stream with catch_unwind per case and process-abort isolation; determinism is checked by repeated in-process and fresh-process runs",
 }
